@@ -48,6 +48,7 @@ def _paths():
     if d not in sys.path:
         sys.path.append(d)
     import canary_objs
+    import canary_shapes  # noqa: F401  (package whose submodule name is shadowed by one of its attributes)
     return canary_objs
 
 
@@ -68,7 +69,9 @@ class Builder:
     def named(self, i):
         co = self.co
         # modules are exercised by the 'modules' arm (pickle refuses them, so there is no pickle reference)
-        return [co.Plain, co.func, co.Color, co.Point, co.Slots, len, collections.OrderedDict, int, os.path.join][i % 9]
+        shadowed = sys.modules["canary_shapes.circle"]      # reachable as sys.modules[name], not as an attribute of its package
+        return [co.Plain, co.func, co.Color, co.Point, co.Slots, len, collections.OrderedDict, int, os.path.join,
+                shadowed.circle, shadowed.Circle][i % 11]
 
     def ref(self, n):
         if not self.containers:
@@ -238,6 +241,19 @@ class Builder:
                 out[self.key(kb, seen)] = self.go(vb)
             self.close()
             return out
+        if k in ("odsub", "odslots"):
+            out = co.ODSub() if k == "odsub" else co.ODSlots()
+            self.reg(out, k)
+            seen = set()
+            for kb, vb in b[1]:
+                out[self.key(kb, seen)] = self.go(vb)
+            if k == "odsub":
+                for name, vb in b[2]:
+                    setattr(out, name, self.go(vb))
+            else:
+                out.limit = self.go(b[2])
+            self.close()
+            return out
         if k == "setsub":
             self.info["shapes"].add("setsub")
             out = co.SetSub()
@@ -315,8 +331,10 @@ def state_of(o):
     return kids
 
 
-def graph_equal(a, b):
-    """None when bisimilar (types, state, sharing partition), else a message."""
+def graph_equal(a, b, notes=None):
+    """None when bisimilar (types, state, sharing partition), else a message.  notes (a list): a different item order in an
+    OrderedDict *subclass* instance is appended there instead of being returned (the caller decides: listed known finding
+    under sort_keys)."""
     a2b, b2a = {}, {}
     stack = [(a, b, "$")]
     while stack:
@@ -382,13 +400,24 @@ def graph_equal(a, b):
                 stack.append((x[k1], y[k2], "%s[%.20r]" % (path, k1)))
             if isinstance(x, collections.OrderedDict) and [repr(k)[:40] for k in x] != [repr(k)[:40] for k in y] and not any(
                     type(k).__module__ == "canary_objs" for k in x):
-                return "%s: OrderedDict order differs: %.80r vs %.80r" % (path, list(x), list(y))
+                if notes is not None and type(x) is not collections.OrderedDict:
+                    notes.append("%s: item order of the OrderedDict subclass %s differs: %.80r vs %.80r" % (path, type(x).__name__, list(x), list(y)))
+                else:
+                    return "%s: OrderedDict order differs: %.80r vs %.80r" % (path, list(x), list(y))
             kids_x = [v for k in sorted(getattr(x, "__dict__", {}) or {}) for v in (k, x.__dict__[k])]
             kids_y = [v for k in sorted(getattr(y, "__dict__", {}) or {}) for v in (k, y.__dict__[k])]
             if len(kids_x) != len(kids_y):
                 return "%s: instance dict differs" % path
             for i, (p, q) in enumerate(zip(kids_x, kids_y)):
                 stack.append((p, q, "%s.__dict__[%d]" % (path, i)))
+            for cls in type(x).__mro__:
+                sl = cls.__dict__.get("__slots__", ())
+                for sname in (sl if isinstance(sl, (tuple, list)) else ()):
+                    if hasattr(x, sname) != hasattr(y, sname):
+                        return "%s: slot %s is %s in the reference and %s in the YAML result" % (
+                            path, sname, "set" if hasattr(x, sname) else "unset", "set" if hasattr(y, sname) else "unset")
+                    if hasattr(x, sname):
+                        stack.append((getattr(x, sname), getattr(y, sname), "%s.%s" % (path, sname)))
             continue
         kx, ky = state_of(x), state_of(y)
         if len(kx) != len(ky):
@@ -503,7 +532,10 @@ def eval_graph(case):
             if model_rejects:
                 failures.append(Failure("unbuildable-cycle-accepted:%s>%s" % (dname, lname), "the construction-order model says this document cannot be built\ntext=%r" % plain_text[:400]))
                 continue
-            d = graph_equal(ref, back)
+            notes = [] if opts.get("sort_keys", True) else None
+            d = graph_equal(ref, back, notes)
+            if notes and not d:
+                failures.append(Failure("ordered-dict-subclass-items-sorted:%s>%s" % (dname, lname), "%s\ntext=%r" % (notes[0], plain_text[:400])))
             if d:
                 kind = "sharing" if "sharing" in d else "identity" if "identity" in d else "type" if ": type " in d else "state"
                 failures.append(Failure("differs-from-pickle:%s>%s:%s%s" % (dname, lname, kind, ""),
@@ -594,6 +626,8 @@ def blueprints(max_leaves=14):
             st.tuples(st.just("listsub"), st.lists(kids, max_size=3), attrs),
             st.lists(st.tuples(hkey, kids), max_size=3).map(lambda l: ("dictsub", l)),
             st.lists(hkey, max_size=3).map(lambda l: ("setsub", l)),
+            st.tuples(st.just("odsub"), st.lists(st.tuples(hkey, kids), max_size=3), attrs),
+            st.tuples(st.just("odslots"), st.lists(st.tuples(hkey, kids), max_size=3), kids),
             st.lists(kids, min_size=1, max_size=3).map(lambda l: ("tuplesub", l)),     # an empty one is never anchored: known finding
             st.lists(kids, min_size=2, max_size=2).map(lambda l: ("nt", l)))
     return st.recursive(leaf, extend, max_leaves=max_leaves)
@@ -612,7 +646,7 @@ def cases():
 
 def enum_modules(shard, nshards, tier):
     if shard == 0:
-        for shape in range(4):
+        for shape in range(6):
             for dname in ("py", "c"):
                 yield (shape, dname)
 
@@ -625,7 +659,8 @@ def eval_modules(case):
     D = dict(dumpers()).get(dname)
     if D is None:
         return Eval([], ["modules:no-c-backend"], nontrivial=False, ident=repr(case), evals=1)
-    value = [co, [co, os.path], {"m": collections, "n": [co]}, (sys, co)][shape]
+    shadowed = sys.modules["canary_shapes.circle"]
+    value = [co, [co, os.path], {"m": collections, "n": [co]}, (sys, co), shadowed, [shadowed, sys.modules["canary_shapes"], shadowed]][shape]
     failures = []
     evals = 0
     text = yaml.dump(value, Dumper=D)
@@ -652,12 +687,12 @@ def eval_modules(case):
 
 
 def arms(tier):
-    return [Arm("graphs", eval_graph, cases, quick=6000, thorough=250000),
+    return [Arm("graphs", eval_graph, cases, quick=14000, thorough=300000),
             Arm("modules", eval_modules, enum=enum_modules, exhaustive=True, shards=1)]
 
 
 REQUIRED_CLASSES = ["shape:plain", "shape:slots", "shape:slotsdict", "shape:getset", "shape:newargs", "shape:reduced", "shape:listsub",
-                    "shape:dictsub", "shape:setsub", "shape:tuplesub", "shape:strsub", "shape:intsub", "shape:enum", "shape:nt", "shape:frozen",
+                    "shape:dictsub", "shape:odsub", "shape:odslots", "shape:setsub", "shape:tuplesub", "shape:strsub", "shape:intsub", "shape:enum", "shape:nt", "shape:frozen",
                     "shape:named", "shape:module", "shape:registered", "shape:registeredsub", "shape:complexsub", "shape:regex", "shape:t", "shape:fs", "shape:od", "sharing", "cycle:constructible", "cycle:unconstructible",
                     "instance-as-key", "text:tuple/complex/name-subset-only", "text:has-object-tags"]
 
@@ -665,6 +700,8 @@ REQUIRED_CLASSES = ["shape:plain", "shape:slots", "shape:slotsdict", "shape:gets
 def known_class(arm, case, key):
     if key.startswith("state-hashed-key:"):
         return "mapping-key-hashed-before-its-state-is-set"
+    if key.startswith("ordered-dict-subclass-items-sorted:"):
+        return "ordereddict-subclass-items-sorted-on-dump"
     return None
 
 
@@ -687,6 +724,11 @@ def pinned_known(key, rec):
             return True
     if key == "empty-tuple-subclass-instance-never-anchored":
         return _empty_tuplesub_shared()
+    if key == "ordereddict-subclass-items-sorted-on-dump":
+        o = co.ODSub()
+        o["b"] = 1
+        o["a"] = 2
+        return list(yaml.unsafe_load(yaml.dump(o))) == ["a", "b"] and list(yaml.unsafe_load(yaml.dump(o, sort_keys=False))) == ["b", "a"]
     if key == "complex-negative-zero-component-lost":
         import math
         back = yaml.unsafe_load(yaml.dump(complex(1.5, -0.0)))
